@@ -1010,8 +1010,52 @@ def rule_G6(ctx, rule: str = "G6") -> None:
                     "an exceptional exit of the response loop leaves the sending task running", "server fails mid-stream while the request channel is still open")
 
 
+def rule_A12(ctx) -> None:
+    """a cancellation (or timeout) delivered to a method of the channel while it waits surfaces to the caller: every handler
+    that can catch asyncio.CancelledError / TimeoutError (by name, through BaseException, or a bare except) raises on each of its
+    paths - taking an item instead and returning it swallows the cancellation"""
+    mod = ctx.repo.mod(M_CHANNEL)
+    CATCHES = ("CancelledError", "TimeoutError", "BaseException")
+
+    def always_raises(stmts: List[ast.stmt]) -> bool:
+        for st in stmts:
+            if isinstance(st, ast.Raise):
+                return True
+            if isinstance(st, ast.If) and st.orelse and always_raises(st.body) and always_raises(st.orelse):
+                return True
+            if isinstance(st, ast.Try) and st.finalbody and always_raises(st.finalbody):
+                return True
+            if isinstance(st, (ast.With, ast.AsyncWith)) and always_raises(st.body):
+                return True
+        return False
+
+    n = 0
+    for mname, fns0 in mod.methods(CLS).items():
+        for k_ in range(len(fns0)):
+            fn = mod.func(f"{CLS}.{mname}", k_)
+            if not isinstance(fn, ast.AsyncFunctionDef):
+                continue
+            for tr in [x for x in ast.walk(fn) if isinstance(x, ast.Try)]:
+                if not any(isinstance(x, (ast.Await, ast.AsyncFor, ast.AsyncWith)) for b in tr.body for x in ast.walk(b)):
+                    continue
+                for h in tr.handlers:
+                    txt = ast.unparse(h.type) if h.type is not None else ""
+                    if h.type is not None and not any(c in txt for c in CATCHES):
+                        continue
+                    n += 1
+                    name = f"{mname}:cancellation-surfaces[{txt or 'bare except'}]"
+                    if always_raises(h.body):
+                        ctx.proved("A12", name, mod.loc(h), "every path of the handler raises")
+                    else:
+                        ctx.refuted("A12", name, "swallowed", mod.loc(h),
+                                    f"{mname}() catches {txt or 'everything'} around its wait and can leave the handler without raising: a receiver that was cancelled (or timed out) while an "
+                                    "item was in flight returns normally, the cancellation / timeout never reaches its caller", "cancel a blocked receiver in the tick in which a send completes")
+    if n == 0:
+        ctx.proved("A12", "cancellation-surfaces", mod.rel, "no handler around a wait can catch a cancellation")
+
+
 def run(ctx) -> None:
-    for name, fn in (("A1", rule_A1), ("A2", rule_A2), ("A3", rule_A3), ("A4", rule_A4), ("A5", rule_A5), ("A6", rule_A6),
+    for name, fn in (("A12", rule_A12), ("A1", rule_A1), ("A2", rule_A2), ("A3", rule_A3), ("A4", rule_A4), ("A5", rule_A5), ("A6", rule_A6),
                      ("A8", rule_A8), ("A9", rule_A9), ("A10", rule_A10), ("A11", rule_A11), ("G6", lambda c: rule_G6(c, "A7"))):
         ctx.rules_run.append(name)
         fn(ctx)
